@@ -78,6 +78,14 @@ func HandleInvite(ctx context.Context, input HandleInviteInput) (PDU, error) {
 		return nil, spec.BadJSON("The room ID in the request path must match the room ID in the invite event JSON")
 	}
 
+	// Check that the event is an invite of the invited user: nothing else may be countersigned.
+	if err = checkIsInvite(input.InviteEvent); err != nil {
+		return nil, err
+	}
+	if !input.InviteEvent.StateKeyEquals(string(input.InvitedSenderID)) && !input.InviteEvent.StateKeyEquals(input.InvitedUser.String()) {
+		return nil, spec.BadJSON("The state key of the invite event must be the invited user")
+	}
+
 	// Check that the event is signed by the server sending the request.
 	redacted, err := verImpl.RedactEventJSON(input.InviteEvent.JSON())
 	if err != nil {
@@ -157,7 +165,22 @@ func HandleInviteV3(ctx context.Context, input HandleInviteV3Input) (PDU, error)
 		return nil, spec.InternalServerError{}
 	}
 
+	if err = checkIsInvite(fullEvent); err != nil {
+		return nil, err
+	}
+
 	return handleInviteCommonChecks(ctx, input.HandleInviteInput, fullEvent, spec.UserID{})
+}
+
+// checkIsInvite checks that the event is an m.room.member event with membership invite.
+func checkIsInvite(event PDU) error {
+	if event.Type() != spec.MRoomMember {
+		return spec.BadJSON("The invite event must be an m.room.member event")
+	}
+	if membership, err := event.Membership(); err != nil || membership != spec.Invite {
+		return spec.BadJSON("The membership of the invite event must be 'invite'")
+	}
+	return nil
 }
 
 func handleInviteCommonChecks(ctx context.Context, input HandleInviteInput, event PDU, sender spec.UserID) (PDU, error) {
